@@ -137,7 +137,7 @@ def forbidden_scan():
 
 
 # property files that belong to a property besides Props/<prop>.lean
-EXTRA_PROP_FILES = {"C06": ["C06Index", "C06RefStable"], "C02": ["C02Builder", "C02Fuel"], "C05": ["C05Files", "C05Foreach", "C05Parent"], "C20": ["C20Classes"], "C16": ["C16Ide"], "C07": ["C07Ide"], "C11": ["C11Ide"], "C12": ["C12Ide"]}
+EXTRA_PROP_FILES = {"C06": ["C06Index", "C06RefStable"], "C02": ["C02Builder", "C02Fuel"], "C05": ["C05Files", "C05Foreach", "C05Parent"], "C20": ["C20Classes"], "C03": ["C03Sat"], "C13": ["C13If"], "C16": ["C16Ide"], "C07": ["C07Ide"], "C11": ["C11Ide"], "C12": ["C12Ide"]}
 
 
 def prop_theorems(prop):
